@@ -21,7 +21,10 @@ def FactsOK : Bool :=
    (C06.guards.filter (· != "stopped:nil")) == ["in:pre:self", "in:post:nil"]) &&
   C06.preLoop == ["mark:pre"] && C06.postLoop == ["mark:post", "unmark:pre"] &&
   C06.loopMethod == "Dependencies" && C06.recurseOnLoopVar && C06.fallthroughNil &&
-  C06.topRange == "AllTargets" && C06.topVisitsLoopVar && C06.topReturnsResult)
+  C06.topRange == "AllTargets" && C06.topVisitsLoopVar && C06.topReturnsResult &&
+  -- nothing survives from one Check() to the next: both sets are fresh locals of Check, the detector has no
+  -- collection-typed field and Check assigns to none of its fields
+  genPersist == Persist.none && C06.detectorCollectionFields == [] && C06.checkWritesFields == [])
 
 /-- Obligation a code change can break: the facts extracted from /repo satisfy the side condition. -/
 theorem C06_facts_ok : FactsOK = true := by decide
@@ -109,6 +112,51 @@ theorem C06_any_order (g : Graph) {n₁ n₂ : List Nat} (hp : n₁.Perm n₂) (
       obtain ⟨a, ha, p⟩ := (C06_iff g n₁ hwf).mp ⟨c, d, h1⟩
       exact absurd p (check_complete genCfg g n₂ h a (hp.subset ha))
 
+/-! ## one detector, many checks, a growing graph
+
+Production keeps one `cycleDetector` per build and re-runs `Check()` while dependencies are still being resolved.
+`checks st calls` is the list of results of the calls, each on the graph as it is at that moment. -/
+
+theorem persist_none : genPersist = Persist.none := by
+  have h := C06_facts_ok
+  simp only [FactsOK, Bool.and_eq_true, beq_iff_eq] at h
+  exact h.2.1.1.2
+
+/-- the results of a sequence of `Check()` calls on one detector -/
+def checks (st : DetState) (calls : List (Graph × List Nat)) : List Res := runSeq genCfg genPersist st calls
+
+/-- Every call of every sequence behaves like a fresh detector on the graph of that call. -/
+theorem C06_seq_stateless (st : DetState) (calls : List (Graph × List Nat)) :
+    checks st calls = calls.map fun c => check c.1 c.2 := by
+  unfold checks
+  rw [persist_none]
+  exact runSeq_stateless genCfg calls st
+
+/-- Soundness along a sequence: whatever was checked before, a cycle reported by the `i`-th call is a genuine cycle
+of the graph as resolved at the `i`-th call. -/
+theorem C06_seq_sound (st : DetState) (calls : List (Graph × List Nat)) (i : Nat) (g : Graph) (nodes c : List Nat) (d : Bool)
+    (hc : calls[i]? = some (g, nodes)) (hr : (checks st calls)[i]? = some (.cyc c d)) :
+    c ≠ [] ∧ Chain g c ∧ ∃ hd l, c.head? = some hd ∧ c.getLast? = some l ∧ Edge g l hd := by
+  rw [C06_seq_stateless, List.getElem?_map, hc] at hr
+  simp only [Option.map_some, Option.some.injEq] at hr
+  exact C06_sound g nodes c d hr
+
+/-- Completeness along a sequence: as soon as the graph given to a call contains a cycle through one of its targets,
+that call reports a cycle — also when the cycle closes through targets that earlier calls had fully visited. -/
+theorem C06_seq_complete (st : DetState) (calls : List (Graph × List Nat)) (i : Nat) (g : Graph) (nodes : List Nat)
+    (hc : calls[i]? = some (g, nodes)) (hwf : WF g nodes) (a : Nat) (ha : a ∈ nodes) (p : Path g a a) :
+    ∃ c d, (checks st calls)[i]? = some (.cyc c d) := by
+  rw [C06_seq_stateless, List.getElem?_map, hc]
+  obtain ⟨c, d, h⟩ := C06_complete g nodes hwf a ha p
+  exact ⟨c, d, by simp [h]⟩
+
+-- non-vacuity: 0→1 first (no cycle, both complete), then 1→0 closes the cycle through the completed targets
+def gA : Graph := fun | 0 => [1] | _ => []
+def gB : Graph := fun | 0 => [1] | 1 => [0] | _ => []
+example : checks ⟨[], []⟩ [(gA, [0, 1]), (gB, [0, 1])] = [.none, .cyc [1, 0] true] := by decide
+/-- what a detector that keeps `complete` between calls would answer: the cycle is never seen -/
+example : runSeq genCfg ⟨true, false⟩ ⟨[], []⟩ [(gA, [0, 1]), (gB, [0, 1])] = [.none, .none] := by decide
+
 -- non-vacuity: the shapes named in the property's rationale
 /-- 0→1→2→0 -/
 def g3 : Graph := fun | 0 => [1] | 1 => [2] | 2 => [0] | _ => []
@@ -117,9 +165,11 @@ example : WF g3 [0, 1, 2] := by unfold WF; decide
 /-- a cycle reached through an already-completed subgraph: 0→{1,2}, 1→3, 2→{1,4}, 4→2 -/
 def g5 : Graph := fun | 0 => [1, 2] | 1 => [3] | 2 => [1, 4] | 4 => [2] | _ => []
 example : check g5 [0, 1, 2, 3, 4] = .cyc [4, 2] true := by decide
+example : WF g5 [0, 1, 2, 3, 4] := by unfold WF; decide
 /-- a DAG with a shared sub-DAG -/
 def gd : Graph := fun | 0 => [1, 2] | 1 => [3] | 2 => [3] | _ => []
 example : check gd [0, 1, 2, 3] = .none := by decide
+example : WF gd [0, 1, 2, 3] := by unfold WF; decide
 example : check (fun | 0 => [0] | _ => []) [0] = .cyc [0] true := by decide
 
 end PlzVerif.Props.C06
